@@ -239,6 +239,41 @@ func runC13(r *lib.Run) {
 						break
 					}
 				}
+				// sometimes a second replace at or below a node this request already replaces (equal or
+				// ancestor/descendant paths, either order): replaces take effect one after the other, in
+				// message order
+				if rng.Intn(3) == 0 {
+					for oi, o := range ops {
+						if o.op != "replace" || o.leaf != nil || strings.Contains(o.kind, "ordered") || o.kind == "whole-list" {
+							continue
+						}
+						ps := lib.PathString(o.elems)
+						var subs []setOp
+						for _, c := range cands {
+							if c.isKey || strings.Contains(c.kind, "ordered") || c.kind == "whole-list" || len(c.elems) < len(o.elems) {
+								continue
+							}
+							if lib.PathString(c.elems[:len(o.elems)]) == ps && !(c.src == o.src && len(c.elems) == len(o.elems)) {
+								subs = append(subs, c)
+							}
+						}
+						if len(subs) == 0 {
+							continue
+						}
+						c := subs[rng.Intn(len(subs))]
+						c.op = "replace"
+						if payloadFor(&c) != nil {
+							continue
+						}
+						if rng.Intn(2) == 0 {
+							ops = append(ops, c)
+						} else {
+							ops = append(append(append([]setOp{}, ops[:oi]...), c), ops[oi:]...)
+						}
+						r.Hit("overlapping-replaces")
+						break
+					}
+				}
 				// common prefix split
 				k := 0
 				minLen := len(ops[0].elems)
@@ -406,7 +441,7 @@ func runC13(r *lib.Run) {
 		}
 		c13Atomic(r, cfg)
 	}
-	r.RequireCov("request-ok", "op:delete:leaf", "op:replace:container", "op:update:list-entry", "op:update:leaf", "op:replace:ordered-container", "atomic-ok", "same-path-updated-twice", "prefix-repeated-in-relative-path")
+	r.RequireCov("request-ok", "op:delete:leaf", "op:replace:container", "op:update:list-entry", "op:update:leaf", "op:replace:ordered-container", "atomic-ok", "same-path-updated-twice", "overlapping-replaces", "prefix-repeated-in-relative-path")
 }
 
 func mustElems(o *lib.Obs, listPath string) []lib.PathElem {
